@@ -4,7 +4,8 @@ package main
 // as the `secure` ("carrier is already encrypted") argument of server.AcceptConnection / socketace.NewServerConnection,
 // at every call site under internal/ (test files excluded), classified by where its value comes from:
 //
-//   false             the literal
+//   false             the literal, or a named boolean constant (declared in the enclosing function or at package level)
+//                     whose value is false
 //   ownSchemeField    `<receiver>.secure`, the receiver of the enclosing method; AND every write of a field named
 //                     `secure` in the package of that file is `<receiver>.secure = true` directly under a test of the
 //                     endpoint's OWN configured scheme for TLS (strings.HasSuffix(<r>.Address.Scheme, "+tls"),
@@ -16,6 +17,12 @@ package main
 //   paramPassThrough  the enclosing function's own bool parameter, never written (AcceptConnection -> NewServerConnection)
 //   other             anything else: a term derived from the request (a header, r.TLS, r.URL), from the peer's
 //                     handshake messages, from the password of the endpoint, an `||` of anything
+//
+// The class is a fact about where the VALUE comes from, not about the spelling of the call site: when the call sits in an
+// unexported helper of the package (the per-peer goroutine body as a method `handshake(peer)`, say) the helper's own
+// receiver field is read as before; when the helper hands on its own never-written bool parameter the rows are those of
+// the helper's call sites in the package (the argument bound to that parameter, classified in the caller; up to three
+// levels); a local defined exactly once (`x := <expr>`) and never written again has the class of its initialiser.
 //
 // `c04ServerSecureWrites` lists every write of a `secure` field in those packages with its verdict, so that the Lean
 // statement names the offending assignment.
@@ -213,26 +220,8 @@ func init() {
 				// NewServerConnection's own state (connection.secure = true after the TLS handshake) is the handshake model
 				fieldOK = true
 			}
-			for _, st := range sites {
-				fn := st.fn
-				arg := st.call.Args[2]
-				text := c05src(arg)
-				class := "other"
-				switch a := arg.(type) {
-				case *ast.Ident:
-					switch {
-					case a.Name == "false":
-						class = "false"
-					case a.Name == "true":
-						class = "other"
-					default:
-						class = c04sLocalClass(fn, a.Name, st.call)
-					}
-				case *ast.SelectorExpr:
-					if a.Sel.Name == "secure" && fn.recv != "" && c05src(a.X) == fn.recv && fieldOK {
-						class = "ownSchemeField"
-					}
-				}
+			pkgConsts := c04sPkgBoolConsts(files)
+			kindOf := func(fn c04sFunc) string {
 				kind := fn.fd.Name.Name
 				if k, ok := c04sKindOfType[fn.typ]; ok {
 					kind = k
@@ -242,8 +231,81 @@ func init() {
 				if kind == "AcceptConnection" {
 					kind = "accept"
 				}
+				return kind
+			}
+			var classify func(fn c04sFunc, arg ast.Expr, depth int)
+			classify = func(fn c04sFunc, arg ast.Expr, depth int) {
+				for {
+					p, ok := arg.(*ast.ParenExpr)
+					if !ok {
+						break
+					}
+					arg = p.X
+				}
+				text := c05src(arg)
+				class := "other"
+				kind := kindOf(fn)
+				switch a := arg.(type) {
+				case *ast.Ident:
+					switch {
+					case a.Name == "false":
+						class = "false"
+					case a.Name == "true":
+						class = "other"
+					default:
+						if v, isConst := c04sConstValue(fn, a.Name, pkgConsts); isConst {
+							// a named constant: the row carries its value
+							if !v {
+								class, text = "false", "false"
+							} else {
+								text = "true"
+							}
+							break
+						}
+						class = c04sLocalClass(fn, a.Name, nil)
+						if class == "paramPassThrough" && depth < 3 && !ast.IsExported(fn.fd.Name.Name) {
+							// an unexported helper handing on its own parameter: the value is whatever its callers in the package pass
+							idx := c04sParamIndex(fn.fd, a.Name)
+							callers := 0
+							for _, g := range funcs {
+								for _, c := range c04sCallsOf(g, fn) {
+									if idx >= 0 && idx < len(c.Args) && c.Ellipsis == token.NoPos {
+										callers++
+										classify(g, c.Args[idx], depth+1)
+									}
+								}
+							}
+							if callers > 0 {
+								return
+							}
+						}
+						if class == "other" && depth < 3 {
+							if init := c04sSingleDef(fn, a.Name); init != nil {
+								classify(fn, init, depth+1)
+								return
+							}
+						}
+					}
+				case *ast.SelectorExpr:
+					if x, ok := a.X.(*ast.Ident); ok && a.Sel.Name == "secure" && fieldOK {
+						if fn.recv != "" && x.Name == fn.recv {
+							class = "ownSchemeField"
+						} else if t := c04sParamType(fn.fd, x.Name); t != "" && c04sNeverWritten(fn, x.Name) {
+							// the server handed to a plain helper function as a parameter: the same field of the same package's type
+							if _, known := c04sKindOfType[t]; known {
+								class = "ownSchemeField"
+								if fn.typ == "" {
+									kind = c04sKindOfType[t]
+								}
+							}
+						}
+					}
+				}
 				seenKinds[kind] = true
-				argRows = append(argRows, fmt.Sprintf("(%s, %s, %s, %s, %s)", leanStr05(kind), leanStr05(fn.file), leanStr05(fn.name()), leanStr05(text), leanStr05(class)))
+				argRows = append(argRows, fmt.Sprintf("(%s, %s, %s, %s, %s)", leanStr05(kind), leanStr05(fn.file), leanStr05(c04sGoOwner(fn, funcs, 0).name()), leanStr05(text), leanStr05(class)))
+			}
+			for _, st := range sites {
+				classify(st.fn, st.call.Args[2], 0)
 			}
 		}
 		for _, k := range []string{"socket", "http", "packet", "stdio", "accept"} {
@@ -251,7 +313,7 @@ func init() {
 				fail("C04: no AcceptConnection / NewServerConnection call site found for server kind %q", k)
 			}
 		}
-		fmt.Fprintf(b, "/-- every call of server.AcceptConnection / socketace.NewServerConnection under internal/ (tests excluded): (server kind,\n    file, function, source text of the `secure` argument, class: false | ownSchemeField | ownSchemeVar | paramPassThrough | other) -/\ndef c04ServerSecureArgs : List (String × String × String × String × String) := [\n  %s]\n\n", strings.Join(argRows, ",\n  "))
+		fmt.Fprintf(b, "/-- every call of server.AcceptConnection / socketace.NewServerConnection under internal/ (tests excluded): (server kind,\n    file, function - the one that starts the goroutine when the site is in a goroutine body, literal or unexported method -,\n    source text of the `secure` argument (a named constant: its value), class: false | ownSchemeField | ownSchemeVar | paramPassThrough | other) -/\ndef c04ServerSecureArgs : List (String × String × String × String × String) := [\n  %s]\n\n", strings.Join(argRows, ",\n  "))
 		fmt.Fprintf(b, "/-- every write of a field named `secure` in the packages of those call sites (socketace's own handshake state excluded):\n    (file, function, statement and innermost guard, verdict: ok = `<receiver>.secure = true` under a test of the endpoint's own\n    scheme or `= false`, in a Startup method | other) -/\ndef c04ServerSecureWrites : List (String × String × String × String) := [\n  %s]\n", strings.Join(writeRows, ",\n  "))
 	})
 }
@@ -323,4 +385,327 @@ func c04sLocalClass(fn c04sFunc, name string, call *ast.CallExpr) string {
 		return "ownSchemeVar"
 	}
 	return "other"
+}
+
+// c04sBoolConst evaluates a constant boolean expression over the literals and the named constants of `named`
+func c04sBoolConst(e ast.Expr, named map[string]ast.Expr, depth int) (val, ok bool) {
+	if depth > 8 {
+		return false, false
+	}
+	switch x := e.(type) {
+	case *ast.Ident:
+		switch x.Name {
+		case "true":
+			return true, true
+		case "false":
+			return false, true
+		}
+		if d, has := named[x.Name]; has {
+			return c04sBoolConst(d, named, depth+1)
+		}
+	case *ast.ParenExpr:
+		return c04sBoolConst(x.X, named, depth+1)
+	case *ast.UnaryExpr:
+		if x.Op == token.NOT {
+			v, ok := c04sBoolConst(x.X, named, depth+1)
+			return !v, ok
+		}
+	case *ast.BinaryExpr:
+		a, okA := c04sBoolConst(x.X, named, depth+1)
+		b, okB := c04sBoolConst(x.Y, named, depth+1)
+		if okA && okB {
+			switch x.Op {
+			case token.LAND:
+				return a && b, true
+			case token.LOR:
+				return a || b, true
+			case token.EQL:
+				return a == b, true
+			case token.NEQ:
+				return a != b, true
+			}
+		}
+	}
+	return false, false
+}
+
+func c04sConstSpecs(g *ast.GenDecl, into map[string]ast.Expr) {
+	if g == nil || g.Tok != token.CONST {
+		return
+	}
+	for _, sp := range g.Specs {
+		vs, ok := sp.(*ast.ValueSpec)
+		if !ok {
+			continue
+		}
+		for i, n := range vs.Names {
+			if i < len(vs.Values) {
+				into[n.Name] = vs.Values[i]
+			}
+		}
+	}
+}
+
+// c04sPkgBoolConsts: the package-level `const` declarations of the given files (name -> defining expression)
+func c04sPkgBoolConsts(files []string) map[string]ast.Expr {
+	m := map[string]ast.Expr{}
+	for _, rel := range files {
+		for _, d := range parse(rel).Decls {
+			if g, ok := d.(*ast.GenDecl); ok {
+				c04sConstSpecs(g, m)
+			}
+		}
+	}
+	return m
+}
+
+// c04sConstValue: name, used inside fn, is a named boolean CONSTANT (declared with `const` in fn's body or at package
+// level, and not shadowed by a parameter, a `var` or a `:=` of fn) and this is its value
+func c04sConstValue(fn c04sFunc, name string, pkg map[string]ast.Expr) (val, isConst bool) {
+	if c04sParamIndex(fn.fd, name) >= 0 || (fn.recv != "" && fn.recv == name) {
+		return false, false
+	}
+	named := map[string]ast.Expr{}
+	for k, v := range pkg {
+		named[k] = v
+	}
+	shadowed := false
+	ast.Inspect(fn.fd.Body, func(x ast.Node) bool {
+		switch s := x.(type) {
+		case *ast.GenDecl:
+			if s.Tok == token.CONST {
+				c04sConstSpecs(s, named)
+			} else if s.Tok == token.VAR {
+				for _, sp := range s.Specs {
+					if vs, ok := sp.(*ast.ValueSpec); ok {
+						for _, n := range vs.Names {
+							if n.Name == name {
+								shadowed = true
+							}
+						}
+					}
+				}
+			}
+		case *ast.AssignStmt:
+			for _, lh := range s.Lhs {
+				if id, ok := lh.(*ast.Ident); ok && id.Name == name {
+					shadowed = true
+				}
+			}
+		case *ast.RangeStmt:
+			for _, e := range []ast.Expr{s.Key, s.Value} {
+				if id, ok := e.(*ast.Ident); ok && id.Name == name {
+					shadowed = true
+				}
+			}
+		}
+		return true
+	})
+	if _, has := named[name]; !has || shadowed {
+		return false, false
+	}
+	v, ok := c04sBoolConst(named[name], named, 0)
+	return v, ok
+}
+
+// c04sParamIndex: position of the parameter called name in fd's parameter list, -1 if none
+func c04sParamIndex(fd *ast.FuncDecl, name string) int {
+	i := 0
+	if fd.Type.Params == nil {
+		return -1
+	}
+	for _, p := range fd.Type.Params.List {
+		if len(p.Names) == 0 {
+			i++
+			continue
+		}
+		for _, n := range p.Names {
+			if n.Name == name {
+				return i
+			}
+			i++
+		}
+	}
+	return -1
+}
+
+// c04sParamType: the (pointer-stripped) type name of fd's parameter called name, "" if none
+func c04sParamType(fd *ast.FuncDecl, name string) string {
+	if fd.Type.Params == nil {
+		return ""
+	}
+	for _, p := range fd.Type.Params.List {
+		for _, n := range p.Names {
+			if n.Name == name {
+				t := p.Type
+				if st, ok := t.(*ast.StarExpr); ok {
+					t = st.X
+				}
+				return c05src(t)
+			}
+		}
+	}
+	return ""
+}
+
+// c04sNeverWritten: the identifier name is neither assigned, redeclared nor has its address taken inside fn
+func c04sNeverWritten(fn c04sFunc, name string) bool {
+	clean := true
+	ast.Inspect(fn.fd.Body, func(x ast.Node) bool {
+		switch s := x.(type) {
+		case *ast.AssignStmt:
+			for _, lh := range s.Lhs {
+				if c05src(lh) == name {
+					clean = false
+				}
+			}
+		case *ast.ValueSpec:
+			for _, n := range s.Names {
+				if n.Name == name {
+					clean = false
+				}
+			}
+		case *ast.UnaryExpr:
+			if s.Op == token.AND && c05src(s.X) == name {
+				clean = false
+			}
+		case *ast.RangeStmt:
+			if (s.Key != nil && c05src(s.Key) == name) || (s.Value != nil && c05src(s.Value) == name) {
+				clean = false
+			}
+		}
+		return true
+	})
+	return clean
+}
+
+// c04sCallsOf: the calls inside caller (function literals, `go` and `defer` included) that resolve to callee, a function
+// or method of the same package: `callee(...)` for a plain function, `<caller's receiver>.callee(...)` for a method of the
+// caller's own receiver type
+func c04sCallsOf(caller, callee c04sFunc) []*ast.CallExpr {
+	var out []*ast.CallExpr
+	ast.Inspect(caller.fd.Body, func(x ast.Node) bool {
+		c, ok := x.(*ast.CallExpr)
+		if !ok {
+			return true
+		}
+		switch f := c.Fun.(type) {
+		case *ast.Ident:
+			if callee.typ == "" && f.Name == callee.fd.Name.Name {
+				out = append(out, c)
+			}
+		case *ast.SelectorExpr:
+			if id, ok := f.X.(*ast.Ident); ok && callee.typ != "" && f.Sel.Name == callee.fd.Name.Name &&
+				caller.recv != "" && id.Name == caller.recv && caller.typ == callee.typ {
+				out = append(out, c)
+			}
+		}
+		return true
+	})
+	return out
+}
+
+// c04sSingleDef: name is a local of fn defined exactly once with an initialiser (`name := e` with one value per name, or
+// `var name = e`), never assigned again, never incremented, its address never taken: its initialiser; nil otherwise
+func c04sSingleDef(fn c04sFunc, name string) ast.Expr {
+	if c04sParamIndex(fn.fd, name) >= 0 {
+		return nil
+	}
+	var init ast.Expr
+	defs, bad := 0, 0
+	ast.Inspect(fn.fd.Body, func(x ast.Node) bool {
+		switch s := x.(type) {
+		case *ast.AssignStmt:
+			for i, lh := range s.Lhs {
+				if c05src(lh) != name {
+					continue
+				}
+				if s.Tok == token.DEFINE && len(s.Lhs) == len(s.Rhs) {
+					defs++
+					init = s.Rhs[i]
+				} else {
+					bad++
+				}
+			}
+		case *ast.GenDecl:
+			if s.Tok != token.VAR {
+				return true
+			}
+			for _, sp := range s.Specs {
+				vs, ok := sp.(*ast.ValueSpec)
+				if !ok {
+					continue
+				}
+				for i, n := range vs.Names {
+					if n.Name != name {
+						continue
+					}
+					if len(vs.Values) == len(vs.Names) {
+						defs++
+						init = vs.Values[i]
+					} else {
+						bad++
+					}
+				}
+			}
+		case *ast.UnaryExpr:
+			if s.Op == token.AND && c05src(s.X) == name {
+				bad++
+			}
+		case *ast.IncDecStmt:
+			if c05src(s.X) == name {
+				bad++
+			}
+		case *ast.RangeStmt:
+			if (s.Key != nil && c05src(s.Key) == name) || (s.Value != nil && c05src(s.Value) == name) {
+				bad++
+			}
+		}
+		return true
+	})
+	if defs == 1 && bad == 0 {
+		return init
+	}
+	return nil
+}
+
+// c04sGoOwner names the function a call site is attributed to.  The body of a per-peer goroutine may be written as a
+// function literal (`go func(c net.Conn) {...}(conn)`, attributed to the enclosing function as a matter of course) or as
+// an unexported function / method of the package started the same way (`go st.handshake(conn)`): when every call of fn in
+// the package is the call of a `go` statement and all of them sit in ONE other function, the site is attributed to that
+// function as well (up to three levels), so that the row does not depend on which of the two spellings is used.
+func c04sGoOwner(fn c04sFunc, funcs []c04sFunc, depth int) c04sFunc {
+	if depth >= 3 || ast.IsExported(fn.fd.Name.Name) {
+		return fn
+	}
+	var owner *c04sFunc
+	total, underGo := 0, 0
+	for i := range funcs {
+		g := funcs[i]
+		calls := c04sCallsOf(g, fn)
+		if len(calls) == 0 {
+			continue
+		}
+		total += len(calls)
+		goCalls := map[*ast.CallExpr]bool{}
+		ast.Inspect(g.fd.Body, func(x ast.Node) bool {
+			if gs, ok := x.(*ast.GoStmt); ok {
+				goCalls[gs.Call] = true
+			}
+			return true
+		})
+		for _, c := range calls {
+			if goCalls[c] {
+				underGo++
+			}
+		}
+		if owner != nil && owner.fd != g.fd {
+			return fn
+		}
+		owner = &funcs[i]
+	}
+	if owner == nil || owner.fd == fn.fd || total == 0 || total != underGo {
+		return fn
+	}
+	return c04sGoOwner(*owner, funcs, depth+1)
 }
